@@ -38,7 +38,7 @@ REQUIRED_COUNTERS = ['bound_pair_deliveries', 'timed_schedules_checked', 'clock_
 
 
 def plan(tier):
-    return dict(cases=5000 if tier == 'quick' else 120000, shards=16, timeout=900 if tier == 'quick' else 3600)
+    return dict(cases=5000 if tier == 'quick' else 60000, shards=16, timeout=900 if tier == 'quick' else 3600)
 
 
 def chart(timed=False, sends=False):
@@ -96,6 +96,10 @@ def gen_scenario(rnd):
                 # the chart sends delayed internal events; one client moves the clock while the runner is stepping
                 if r < 0.3 and c == 0:
                     ops.append(('clock', rnd.choice((1, 2, 3, 5))))
+                elif c > 0 and r < 0.2:
+                    ops.append(('pause',))          # a chart that keeps sending events to itself must honour a pause as well
+                elif c > 0 and r < 0.35:
+                    ops.append(('unpause',))
                 elif r < 0.85:
                     ops.append(q((0, 0, 0, 5)))
                 else:
